@@ -83,6 +83,7 @@ pub fn blocks(thorough: bool) -> Vec<Block> {
         b.push(Block::new(Universe::new("U_adv(A_gc)", A_GC, 2, 2, true), esc(&[0, R]), "{e, e+u} x {{}, r}"));
         b.push(Block::new(crate::props::c05::u_rep_single(&["\u{e9}", "\u{1f4a9}", "a"], 6), esc(&[R, R | X]), "{e, e+u} x {r, r+x}"));
         b.push(Block::new(crate::props::c05::u_rep_single(&["\u{10000}", "\u{10ffff}", "\u{ffff}"], 5), esc(&[R]), "{e, e+u} x r"));
+        b.push(Block::new(Universe::new("U_pairs{e9,1f4a9,a}^<=4", &["\u{e9}", "\u{1f4a9}", "a"], 4, 2, false), esc(&[R, R | X]), "{e, e+u} x {r, r+x}"));
     } else {
         b.push(Block::new(crate::props::c05::u_rep_single(&["\u{e9}", "\u{1f4a9}", "a"], 8), esc(&[R, R | X, R | I, R | G]), "{e, e+u} x {r, r+x, r+i, r+g}"));
         b.push(Block::new(crate::props::c05::u_rep_single(&["\u{10000}", "\u{10ffff}", "\u{ffff}", "\u{80}"], 6), esc(&[R, R | X]), "{e, e+u} x {r, r+x}"));
